@@ -368,6 +368,10 @@ func parseRDNSS(d rawRDNSS, maxInterval time.Duration) (*plugin.RDNSS, error) {
 		if !ip.Is6() || ip.Is4In6() {
 			return nil, fmt.Errorf("string %q is not an IPv6 address", s)
 		}
+		if ip.Zone() != "" {
+			// The option carries bare addresses: a zone would be lost on the wire.
+			return nil, fmt.Errorf("IPv6 address %q must not have a zone", s)
+		}
 
 		// If :: is present, don't add it to the slice but do set Auto to true
 		// so a server address can be automatically chosen at runtime. The
